@@ -313,14 +313,13 @@ impl<'de> serde::Deserializer<'de> for &mut ValueDeserializer<'de> {
         V: serde::de::Visitor<'de>,
     {
         if let Some(scalar) = self.input.as_scalar() {
-            if scalar.to_integer().is_some() {
-                self.deserialize_i64(visitor)
-            } else if scalar.to_float().is_some() {
-                self.deserialize_f64(visitor)
-            } else if scalar.to_bool().is_some() {
-                self.deserialize_bool(visitor)
-            } else {
-                self.deserialize_str(visitor)
+            // Dispatch on the kind of the scalar, not on what its text could be
+            // parsed as: the string "10" must stay a string.
+            match scalar.type_name() {
+                "whole number" => self.deserialize_i64(visitor),
+                "fractional number" => self.deserialize_f64(visitor),
+                "boolean" => self.deserialize_bool(visitor),
+                _ => self.deserialize_str(visitor),
             }
         } else if self.input.is_array() {
             self.deserialize_seq(visitor)
